@@ -2,27 +2,143 @@
 Owned by the integrator.  Checks call:
 
     from checks import codec_common
-    ok = codec_common.proof_stage(chk, pid)             # builds coq/base + coq/codec, Print Assumptions
-    res = codec_common.run_model(chk, kind, cases)      # run extracted model on cases -> list of result strings
+    ok = codec_common.proof_stage(chk, pid, theorems=[...])   # builds coq/base + coq/codec, Print Assumptions
+    res = codec_common.run_model(chk, kind, cases)            # extracted model on cases -> list of result dicts
+    bad = codec_common.compare(case, res)                     # None if they agree, else a reason string
 
-Until the codec model lands these are stubs that only build coq/base."""
+kinds: "dec_stream", "dec_subset", "struct" (case formats: tools/AGENT_GUIDE.md / codech prompt)."""
+import json
 import os
+import shutil
+
 import vlib
-from vlib import VERIF
+from vlib import VERIF, CACHE, sh
 
 BASE = os.path.join(VERIF, "coq", "base")
+CODEC = os.path.join(VERIF, "coq", "codec")
+MODEL_FILES = ["Num.v", "Ast.v", "Parser.v", "Header.v", "Subframe.v", "Struct.v", "Dec.v", "Write.v", "Stream.v"]
+_driver = {}
 
 
-def proof_stage(chk, pid, theorems=None):
+def coq_files():
+    return [f for f in vlib.coq_files(CODEC) if f not in ("Extract.v",)]
+
+
+def proof_stage(chk, pid, theorems=None, requires=None):
+    thms = theorems or ["crc16_valid_single_bit_detected", "crc8_valid_single_bit_detected"]
+    reqs = ["Coq.Lists.List", "Coq.NArith.NArith", "Coq.ZArith.ZArith", "FlacBase.Bits", "FlacBase.Crc", "FlacBase.Pins"] + (requires or [])
     return vlib.proof_stage(
-        chk, coq_dirs=[BASE], build_dir=BASE, qflags="-Q . FlacBase",
-        requires=["Coq.Lists.List", "Coq.NArith.NArith", "FlacBase.Bits", "FlacBase.Crc", "FlacBase.Pins"],
-        theorems=theorems or ["crc16_valid_single_bit_detected", "crc8_valid_single_bit_detected"],
-        obligation_files=[(BASE, ["Res.v", "Bits.v", "Crc.v", "Pins.v"])],
+        chk, coq_dirs=[BASE, CODEC], build_dir=CODEC, qflags="-Q ../base FlacBase -Q . FlacCodec",
+        requires=reqs, theorems=thms,
+        obligation_files=[(BASE, ["Res.v", "Bits.v", "Crc.v", "Pins.v"]), (CODEC, coq_files())],
         gen_steps=["python3 %s/tools/gen_crc.py %s %s/GenCrc.v" % (VERIF, vlib.REPO, BASE)])
 
 
-def run_model(chk, kind, cases):
-    """kind in {"dec_stream", "dec_subset", "struct_parse", ...}; cases: list of dicts from the harness.
-    Returns None while the model for `kind` is not available (the caller then skips the diff)."""
-    return None
+def build_driver(chk):
+    """Build (once per process) the OCaml driver from the freshly extracted model."""
+    if "exe" in _driver:
+        return _driver["exe"]
+    ok, out = vlib.coq_make(BASE)
+    ok2, out2 = vlib.coq_make(CODEC) if ok else (False, out)
+    if not (ok and ok2):
+        chk.broken_tie("coq-build:codec-model", out2)
+        _driver["exe"] = None
+        return None
+    mdir = os.path.join(CACHE, "ocaml", "codec")
+    os.makedirs(mdir, exist_ok=True)
+    for f in ("codec_model.ml", "codec_model.mli"):
+        shutil.copy(os.path.join(CODEC, f), mdir)
+    shutil.copy(os.path.join(VERIF, "ocaml", "codec_driver.ml"), mdir)
+    okb, exe, bout = vlib.ocaml_build(mdir, ["codec_model.mli", "codec_model.ml", "codec_driver.ml"], "codec_driver")
+    if not okb:
+        chk.broken_tie("ocaml-build:codec", bout)
+        exe = None
+    _driver["exe"] = exe
+    return exe
+
+
+def run_model(chk, kind, cases, shards=None):
+    """Run the extracted model on harness cases (dicts with "kind").  Returns a list of result
+    dicts aligned with `cases`, or None when the model cannot be run (a broken tie is recorded)."""
+    if kind not in ("dec_stream", "dec_subset", "struct"):
+        return None
+    exe = build_driver(chk)
+    if exe is None:
+        return None
+    if not cases:
+        return []
+    import concurrent.futures
+    n = shards or min(vlib.NCPU, max(1, len(cases) // 8))
+    chunks = [cases[i::n] for i in range(n)]
+
+    def work(chunk):
+        data = "\n".join(json.dumps(c) for c in chunk) + "\n"
+        rc, out = sh("ulimit -s unlimited 2>/dev/null || ulimit -s 1000000; exec %s" % exe, stdin=data, timeout=3000)
+        lines = [l for l in out.split("\n") if l.startswith("{")]
+        if rc != 0 or len(lines) != len(chunk):
+            return None, out[-2000:]
+        return [json.loads(l) for l in lines], ""
+
+    with concurrent.futures.ThreadPoolExecutor(max_workers=n) as ex:
+        outs = list(ex.map(work, chunks))
+    res = [None] * len(cases)
+    for k, (r, msg) in enumerate(outs):
+        if r is None:
+            chk.broken_tie("model-run:" + kind, msg)
+            return None
+        for j, v in enumerate(r):
+            res[k + j * n] = v
+    return res
+
+
+def _cls(e):
+    return e.split(":")[0]
+
+
+def compare(case, r):
+    """Compare one harness case with the model result.  Returns (disagreement or None, variant_note or None).
+    Class of the ending (eof/ok | err | panic) and all payloads must agree exactly; the error
+    variant is compared softly."""
+    k = case["kind"]
+    note = None
+    if r is None:
+        return "no model result", None
+    if r.get("end", "").startswith(("driver-", "unknown-kind")):
+        return "model driver: " + r["end"], None
+    if k == "dec_stream":
+        if r["end"] == "badmeta":
+            # the minimal metadata reader of the model rejects; the implementation must not have opened
+            # the file either (full metadata rules belong to C11/C12)
+            if case.get("opened", True) and case["end"] != "err:badmeta":
+                return None, "metadata accepted by the implementation but not by the minimal model reader"
+            return None, None
+        if not case.get("opened", True):
+            return None, "metadata rejected by the implementation only (rules outside the codec model)"
+        for f in ("samples", "frame_lens", "ch", "bps", "rate"):
+            if case[f] != r[f]:
+                return "field %s differs: impl %s model %s" % (f, str(case[f])[:200], str(r[f])[:200]), None
+        if _cls(case["end"]) != _cls(r["end"]):
+            return "ending differs: impl %s model %s" % (case["end"], r["end"]), None
+        if case["end"] != r["end"] and _cls(case["end"]) != "panic":
+            note = "error variant: impl %s model %s" % (case["end"], r["end"])
+        return None, note
+    if k == "dec_subset":
+        if case["frames"] != r["frames"]:
+            return "frames differ: impl %s model %s" % (str(case["frames"])[:300], str(r["frames"])[:300]), None
+        if _cls(case["end"]) != _cls(r["end"]):
+            return "ending differs: impl %s model %s" % (case["end"], r["end"]), None
+        if case["end"] != r["end"]:
+            note = "error variant: impl %s model %s" % (case["end"], r["end"])
+        return None, note
+    if k == "struct":
+        if _cls(case["end"]) != _cls(r["end"]):
+            return "ending differs: impl %s model %s" % (case["end"], r["end"]), None
+        if case["end"] == "ok":
+            if case["decoded"] != r["decoded"]:
+                return "decoded subframes differ", None
+            if case.get("rewritten", "") not in ("", "!") and case["rewritten"] != r["rewritten"]:
+                return "re-serialisation differs: impl %s model %s" % (case["rewritten"][:200], r["rewritten"][:200]), None
+        elif case["end"] != r["end"]:
+            note = "error variant: impl %s model %s" % (case["end"], r["end"])
+        return None, note
+    return None, None
